@@ -467,4 +467,6 @@ func c19(p *model.Prog, r *report.Result) {
 		r.Bad("C19.R5", fkey(gamma, "scaling-list", "floor"), p.Pos(gamma.Pos()), "the 16/64 scaling-list size selection was not found")
 	}
 	c19r67(p, r)
+	c19r8(p, r)
+	c19r9(p, r)
 }
